@@ -36,30 +36,53 @@ RULE = (
     "pool of base operands (images: scalar float64 x2, coarse ScalarImage, float32 ScalarImage, uint8 scalar, vector, optical RGB uint8 / "
     "BGR uint8 / RGB float64 / HSV uint8, series with times, series with dates, later dated single image, 3-D scalar; thorough adds series-vector, "
     "second 3-D, default-geometry image, uint16 scalar; plus caller-owned lists / arrays / models / geometries) x registry of call forms "
-    "(see describe()). 'chain' cases: every (call form, variable operand) of the initial state, then every chain of further call forms "
-    "that bind the previous result (as variable operand, in first or second position, or twice) up to the stated depth, WITHOUT "
-    "de-duplication. 'fix' cases: breadth-first search from the same roots with de-duplication by (exact kind of the result = class, flags, "
-    "array shape and dtype, dimensions, origin, colour space, form of time/date; alias signature = which containers of the result share "
-    "memory / identity with which pool container), to a fixpoint of that graph inside the guards (extents 1..8, voxel size >= 1/4, at most "
-    "4 time steps). Call forms that bind only pool operands are not repeated at depth >= 2 (same call on the same verified-pristine pool). "
-    "Non-trivial = transition in which the call returned; distinct = distinct (call form, kind and alias signature of the variable operand)."
+    "(see describe()). 'chain' cases, no de-duplication: every (call form, variable operand) of the initial state, then every chain of "
+    "further call forms that bind the previous result (as variable operand, in first or second position, or twice): all chains of "
+    "length 2 over the full registry; thorough also all chains of length 3 whose 2nd and 3rd form are in the CORE3 sub-registry. "
+    "'fix' cases: breadth-first search from every call form on a root operand over the abstract graph with nodes (kind of the previous "
+    "result = class, space_dim, scalar / series flags, dtype, colour space, form of date / time [thorough: with lengths], reference date, "
+    "array rank; alias signature = which containers of the result share memory / identity with which pool container) and call forms as "
+    "edges, to a fixpoint: every (node, call form enabled on SOME reached member of the node) pair is executed at least once on the real "
+    "objects, a reached concrete state being extended by exactly the forms not yet executed on its node (enabledness is evaluated per "
+    "concrete state, so extents / dimensions / data never hide a form). Guards keep the graph finite: extents 1..8, voxel size >= 1/4 for "
+    "refinement, at most 4 time steps. Quick: 8 root operands, registry without the variants listed in FIX_SKIP_QUICK; thorough: every "
+    "pool image and array as root, full registry. Call forms that bind only pool operands are not repeated at depth >= 2 (same call on "
+    "the same verified-pristine pool). Non-trivial = transition in which the call returned; distinct = distinct (call form, kind and "
+    "alias signature of the variable operand)."
 )
 ASSUMPTIONS = [
     "all data dyadic; float image data in [0, 1) so that skimage conversions are defined; img_as_* is skipped when a derived operand left [-1, 1]",
-    "guards exclude documented refusals a priori (3-D resize / EMD / superposition, non-scalar superposition, ill-ordered dates in stack, "
-    "colour conversions OpenCV does not define, cv2 dtypes, average reduction of integer data, odd extents for halving)",
-    "receivers that are not images (Geometry, Resize, EMD, models, ConcentrationAnalysis) are digested without their 'cached_*' attributes: "
+    "guards exclude documented refusals a priori (3-D resize / EMD / superposition, non-scalar superposition, superposition of converted images "
+    "(original_dtype != dtype), ill-ordered or partly missing dates in stack, colour conversions OpenCV does not define, cv2 dtypes, reduction / "
+    "extrusion of OpticalImage (2-D by construction), negative or unequal masses in EMD, odd extents for halving)",
+    "soundness of the abstraction in 'fix' cases: which containers a call form writes to depends on the kind and alias signature of its "
+    "operands and on which forms are enabled, not on pixel values, extents or dimension values",
+    "full content is compared through pickles (equal pickles of the same live object = equal content); unequal pickles are confirmed with "
+    "the canonical digest mc.canon.digest before a violation is reported",
+    "receivers that are not images (Geometry, Resize, EMD, models, ConcentrationAnalysis) are compared without their 'cached_*' attributes: "
     "their caches are hidden state (C03 / C16), not arguments",
     "reset_origin(return_image=True) is documented as an in-place reset that additionally returns a copy: only attributes other than "
     "'origin' of the receiver are required to be unchanged",
     "LinearModel / CombinedModel-with-LinearModel on Images is C14's subject (Image + float is undefined) and is exercised on arrays only",
+    "results that are not extended: non-image / non-array results, ScalarImages whose array rank contradicts their flags (comparison of "
+    "non-scalar images), optical images in a colour space the OpticalImage constructor refuses (HLS, LAB)",
     "a transition that violated is not extended (its pool is no longer the base pool); every other transition starts from a pool whose "
-    "digest equals the pristine one",
+    "content equals the pristine one",
 ]
 
 D0 = datetime.datetime(2023, 5, 1, 12, 0, 0)
 DEPTH = {"quick": 2, "thorough": 3}
-FIX_CAP = {"quick": 1500, "thorough": 6000}
+FIX_CAP = {"quick": 1500, "thorough": 4000}
+# Chains of length 3 (thorough) use this sub-registry for their 2nd and 3rd call form: one form per way a result can share
+# containers with its operands or an operand can be written to.
+CORE3 = (
+    "add/x,x", "add/P,x", "mul/float", "lt/x,float", "astype/float32", "astype/Image", "copy", "time_slice/first", "time_interval/0:2",
+    "subregion/slices", "reset_origin/return_image", "ctor/rewrap-metadata", "ctor/rewrap-metadata+height", "ctor/from-array", "weight/float",
+    "weight/x,x", "weight/other-resolution,x", "superpose/x,x", "stack/x,x", "stack/P,x", "resize/half", "uniform_refinement/+1",
+    "reduce_axis/int,sum", "extrude_along_axis", "zeros_like/shape", "model/ClipModel/image", "model/ScalingModel(1)/image",
+    "model/ScalingModel(1)/array", "Geometry.normalize/x,x", "to_trichromatic/BGR", "to_monochromatic/red", "EMD/preprocess,P,x",
+)
+FIX_ROOTS_QUICK = ["S2", "U8", "V2", "O8", "T2", "S3", "ARR", None]
 
 # -----------------------------------------------------------------------------------
 # pool
@@ -436,7 +459,7 @@ for _nm, _s in (("float", 2.5), ("int", 2), ("npfloat64", np.float64(0.5))):
             c.ref = x.img.copy() * _s
             return c.use(x, "self") * _s
 
-        @op(f"rmul/{_nm}", arith=True, group=f"rmul-{_nm}")
+        @op(f"rmul/{_nm}", arith=True, group=f"mul-{_nm}")
         def _r(c, x):
             need(_numeric(feat(x)))
             c.ref = _s * x.img.copy()
@@ -449,21 +472,21 @@ _CMP = {"lt": lambda a, b: a < b, "gt": lambda a, b: a > b, "eq": lambda a, b: a
 for _nm, _f in _CMP.items():
 
     def _mk(_nm=_nm, _f=_f):
-        @op(f"{_nm}/x,P", group=f"compare-{_nm}")
+        @op(f"{_nm}/x,P", group="compare")
         def _a(c, x):
             P = partner(c, x)
             return _f(c.use(x, "self"), c.use(P, "other"))
 
-        @op(f"{_nm}/x,x", group=f"compare-{_nm}")
+        @op(f"{_nm}/x,x", group="compare")
         def _b(c, x):
             c.use(x, "self")
             return _f(x, x)
 
-        @op(f"{_nm}/x,float", group=f"compare-{_nm}")
+        @op(f"{_nm}/x,float", group="compare")
         def _c(c, x):
             return _f(c.use(x, "self"), 0.5)
 
-        @op(f"{_nm}/x,int", group=f"compare-{_nm}")
+        @op(f"{_nm}/x,int", group="compare")
         def _d(c, x):
             return _f(c.use(x, "self"), 1)
 
@@ -586,14 +609,14 @@ def _ti1(c, x):
 @op("slice/int-axis", group="slice")
 def _slice_int(c, x):
     k = feat(x)
-    need(k.sd >= 2)
+    need(k.sd >= 2 and k.cls != "OpticalImage" and _numeric(k))
     return c.use(x, "self").slice(0, k.sd - 1)
 
 
 @op("slice/cartesian-axis", group="slice")
 def _slice_name(c, x):
     k = feat(x)
-    need(k.sd >= 2)
+    need(k.sd >= 2 and k.cls != "OpticalImage" and _numeric(k))
     ctr = np.asarray(x.coordinatesystem.coordinate(np.full(k.sd, 0.5)), dtype=float)
     return c.use(x, "self").slice(float(ctr[0]), "x")
 
@@ -820,7 +843,8 @@ def _superposable(k):
 
 
 def _same_original_dtype(a, b):
-    need(a.original_dtype == b.original_dtype and a.time_num == b.time_num)
+    # superpose() allocates with 'original_dtype': a converted image (astype) is outside its documented use
+    need(a.original_dtype == b.original_dtype and a.time_num == b.time_num and a.original_dtype == a.img.dtype and b.original_dtype == b.img.dtype)
 
 
 @op("superpose/x,P", group="superpose")
@@ -848,6 +872,7 @@ def _sp_xx(c, x):
     import darsia
 
     _superposable(feat(x))
+    _same_original_dtype(x, x)
     c.use(x, "images[0]")
     return darsia.superpose(c.use([x, x], "images"))
 
@@ -868,6 +893,8 @@ def _sp_xq(c, x):
 def _stackable(a, b):
     ka, kb = feat(a), feat(b)
     need(ka.nt + kb.nt <= 4)
+    # dated and undated images are not mixed (a series with partly missing dates has no defined relative time: C02's subject)
+    need(a._is_none(a.date) == b._is_none(b.date))
     if ka.datef != "N" and kb.datef != "N" and not a._is_none(a.date) and not b._is_none(b.date):
         last = a.date[-1] if a.series else a.date
         first = b.date[0] if b.series else b.date
@@ -1054,7 +1081,7 @@ def _red_avg(c, x):
     import darsia
 
     k = feat(x)
-    need(k.sd >= 2 and _floaty(k))
+    need(k.sd >= 2 and _numeric(k) and k.cls != "OpticalImage")
     return darsia.reduce_axis(c.use(x, "image"), 0)
 
 
@@ -1063,7 +1090,7 @@ def _red_sum(c, x):
     import darsia
 
     k = feat(x)
-    need(k.sd >= 2 and _numeric(k))
+    need(k.sd >= 2 and _numeric(k) and k.cls != "OpticalImage")
     return darsia.reduce_axis(c.use(x, "image"), k.sd - 1, mode="sum")
 
 
@@ -1072,7 +1099,7 @@ def _red_name(c, x):
     import darsia
 
     k = feat(x)
-    need(k.sd >= 2 and _floaty(k))
+    need(k.sd >= 2 and _numeric(k) and k.cls != "OpticalImage")
     return darsia.reduce_axis(c.use(x, "image"), "xyz"[k.sd - 1], mode="average")
 
 
@@ -1081,7 +1108,7 @@ def _red_slice(c, x):
     import darsia
 
     k = feat(x)
-    need(k.sd >= 2)
+    need(k.sd >= 2 and k.cls != "OpticalImage")
     return darsia.reduce_axis(c.use(x, "image"), 1, mode="slice", slice_idx=0)
 
 
@@ -1090,7 +1117,7 @@ def _extrude(c, x):
     import darsia
 
     k = feat(x)
-    need(k.sd == 2)
+    need(k.sd == 2 and k.cls != "OpticalImage")
     return darsia.extrude_along_axis(c.use(x, "img"), 1.0, 2)
 
 
@@ -1104,7 +1131,7 @@ for _fn in ("zeros_like", "ones_like"):
 
             return getattr(darsia, _fn)(c.use(x, "image"))
 
-        @op(f"{_fn}/voxels", group=f"{_fn}-voxels")
+        @op(f"{_fn}/voxels", group="like-voxels")
         def _b(c, x):
             import darsia
 
@@ -1238,6 +1265,7 @@ def _same_mass(a, b):
     for _ in range(2):
         sa, sb = np.sum(sa, axis=0), np.sum(sb, axis=0)
     need(np.all(np.asarray(sa) > 0) and np.allclose(sa, sb, atol=1e-9))
+    need(bool(np.all(a.img >= 0)) and bool(np.all(b.img >= 0)))  # cv2.EMD refuses negative weights
 
 
 @op("EMD/x,P", group="EMD")
@@ -1366,6 +1394,7 @@ def _ca_call(c, x):
 
 
 OPS = list(REG)
+_DEBUG = None
 
 # -----------------------------------------------------------------------------------
 # the transition checker
@@ -1414,9 +1443,22 @@ class World:
 
 
 def chainable(res):
+    """Results that are extended: arrays and well-formed images.  Not extended: an image whose array rank contradicts its flags
+    (comparisons of non-scalar images return such ScalarImages) and optical images in a colour space the OpticalImage constructor
+    refuses (to_trichromatic('HLS' | 'LAB')): every metadata-based call form raises the documented NotImplementedError on them."""
     import darsia
 
-    return isinstance(res, (darsia.Image, np.ndarray))
+    if isinstance(res, np.ndarray):
+        return True
+    if not isinstance(res, darsia.Image):
+        return False
+    k = feat(res)
+    base = k.sd + (1 if k.series else 0)
+    if (len(k.shape) != base) if k.scalar else (len(k.shape) <= base):
+        return False
+    if k.cls == "OpticalImage" and k.cs not in ("RGB", "BGR", "HSV"):
+        return False
+    return True
 
 
 def transition(w, opname, xname, r, stats):
@@ -1493,7 +1535,7 @@ def transition(w, opname, xname, r, stats):
             r.check(ok, cell, "image arithmetic agrees element-wise with the same arithmetic on the raw arrays", op=opname, operand=xname, operand_kind=list(kx),
                     got=got, want=c.ref)
     elif exc is not None:
-        r.fail(f"{cellbase}/crash/{kl}", "a call form inside the guards returns (no exception escapes)", op=opname, operand=xname, operand_kind=list(kx),
+        r.fail(f"{cellbase}/crash/{kl}/{dtclass(kx) if kx.what != 'none' else 'none'}", "a call form inside the guards returns (no exception escapes)", op=opname, operand=xname, operand_kind=list(kx),
                history=w.hist, exception=f"{type(exc).__name__}: {exc}")
     else:
         r.ok()
@@ -1514,17 +1556,28 @@ def transition(w, opname, xname, r, stats):
 def coarse_kind(k):
     """Kind without extents / dimension / origin values: what they decide (which call forms are enabled, which pool operand is a
     compatible partner) enters the abstract state through enabled_forms()."""
-    return (k.what, k.cls, k.sd, k.scalar, k.series, k.dt, k.cs, k.datef, k.timef, k.refd, len(k.shape))
+    return (k.what, k.cls, k.sd, k.scalar, k.series, k.dt, k.cs, _short(k.datef), _short(k.timef), k.refd, len(k.shape))
 
 
-def enabled_forms(w, x):
+def _short(f):
+    return (f[0], f[2]) if isinstance(f, tuple) else f
+
+
+# call forms left out of the quick tier's fixpoint search (they run in every chain case): variants that differ from a retained
+# form only in the comparison operator / target dtype / colour channel
+FIX_SKIP_QUICK = ("gt/", "le/", "ge/", "astype/float64", "astype/pyfloat", "astype/uint16", "img_as/float32", "img_as/float64", "img_as/uint16",
+                  "img_as/pyint", "mul/npfloat64", "rmul/npfloat64", "to_monochromatic/green", "to_monochromatic/blue", "to_monochromatic/saturation",
+                  "to_monochromatic/value", "to_trichromatic/LAB", "to_trichromatic/HLS")
+
+
+def enabled_forms(w, x, skip=()):
     """Names of the call forms whose a-priori guards accept x as variable operand (dry run: stops at the first argument)."""
     import darsia
 
     dom = "img" if isinstance(x, darsia.Image) else "arr"
     out = []
     for opname in OPS:
-        if REG[opname]["dom"] != dom:
+        if REG[opname]["dom"] != dom or opname.startswith(skip):
             continue
         c = Ctx(w.pool, w.prev)
         c.dry = True
@@ -1567,7 +1620,7 @@ def cases(tier):
         xs = [None] if dom == "none" else (names if dom == "img" else ARR_NAMES)
         for xn in xs:
             out.append({"kind": "chain", "tier": tier, "op": opname, "x": xn, "depth": DEPTH[tier]})
-    for xn in list(names) + ARR_NAMES + [None]:
+    for xn in (list(names) + ARR_NAMES + [None]) if tier == "thorough" else FIX_ROOTS_QUICK:
         out.append({"kind": "fix", "tier": tier, "x": xn})
     return out
 
@@ -1594,6 +1647,8 @@ def run_chain(case, r):
         # w.hist / w.prev describe the current state; try every successor binding prev
         leaf = True
         for opname, xname in list(successors(w, first=False)):
+            if level >= 3 and opname not in CORE3:
+                continue
             hist0 = list(w.hist)
             status, res = transition(w, opname, xname, r, stats)
             if status == "disabled":
@@ -1601,7 +1656,7 @@ def run_chain(case, r):
             leaf = False
             if status == "ok":
                 _note(r, w, opname, xname, res)
-                if chainable(res) and level < depth:
+                if chainable(res) and level < depth and (level + 1 < 3 or opname in CORE3):
                     prev0, prevdig0 = w.prev, w.prevdig
                     w.hist = hist0 + [[opname, xname]]
                     w.prev, w.prevdig = res, _sig(res)
@@ -1636,26 +1691,34 @@ def run_chain(case, r):
 
 
 def run_fix(case, r):
+    """Fixpoint of the abstract graph: nodes = (kind, alias signature) of the previous result, edges = call forms.  Every
+    (node, call form enabled on some member of the node) pair is executed at least once on the real objects; a concrete state is
+    extended only by the call forms that were not yet executed on its node."""
     tier = case["tier"]
     w = World(tier)
     stats = collections.Counter()
-    seen = set()
+    explored = {}  # node -> set of call forms executed (or queued) on a member of the node
     frontier = collections.deque()
     cap = FIX_CAP[tier]
     capped = False
     maxdepth = 0
+    fine = tier == "thorough"
+    skip = () if fine else FIX_SKIP_QUICK
 
     def visit(hist, res):
         nonlocal capped, maxdepth
-        key = (coarse_kind(feat(res)), alias_sig(res, w.pcont), enabled_forms(w, res))
-        if key in seen:
-            return
-        if len(seen) >= cap:
-            capped = True
-            return
-        seen.add(key)
-        frontier.append(hist)
-        maxdepth = max(maxdepth, len(hist))
+        k = feat(res)
+        key = (coarse_kind(k) + ((k.datef, k.timef, k.nt) if fine else ()), alias_sig(res, w.pcont))
+        if key not in explored:
+            if len(explored) >= cap:
+                capped = True
+                return
+            explored[key] = set()
+        new = [f for f in enabled_forms(w, res, skip) if f not in explored[key]]
+        if new:
+            explored[key].update(new)
+            frontier.append((hist, new))
+            maxdepth = max(maxdepth, len(hist))
 
     # roots: every call form on the root operand
     for opname in OPS:
@@ -1669,16 +1732,16 @@ def run_fix(case, r):
         if status == "ok" and chainable(res):
             visit([[opname, case["x"]]], res)
     while frontier:
-        hist = frontier.popleft()
+        hist, forms = frontier.popleft()
         w.hist = hist
         w.rebuild()
-        for opname, xname in list(successors(w, first=False)):
-            status, res = transition(w, opname, xname, r, stats)
+        for opname in forms:
+            status, res = transition(w, opname, "prev", r, stats)
             if status == "ok":
-                _note(r, w, opname, xname, res)
+                _note(r, w, opname, "prev", res)
                 if chainable(res):
-                    visit(hist + [[opname, xname]], res)
-    r.count("states", len(seen))
+                    visit(hist + [[opname, "prev"]], res)
+    r.count("states", len(explored))
     r.count("transitions", stats["transitions"])
     r.count("traces", stats["transitions"])
     r.count("fix_max_depth", maxdepth)
@@ -1686,7 +1749,9 @@ def run_fix(case, r):
         r.count("cap_hit", 1)
     else:
         r.count("fixpoints_reached", 1)
-    r.outcome(("fix", case["x"], len(seen), maxdepth))
+    r.outcome(("fix", case["x"], len(explored), maxdepth))
+    if _DEBUG is not None:
+        _DEBUG["seen"] = explored
 
 
 def run_case(case, r):
